@@ -375,3 +375,11 @@ pub fn panic_sig(msg: &str) -> String {
     }
     out
 }
+
+/// Scratch directory for files the engines create (and remove) at run time:
+/// $WPMON_TMP if set, else /verif/target/tmp (never /tmp).
+pub fn scratch_dir() -> std::path::PathBuf {
+    let p = std::env::var_os("WPMON_TMP").map(std::path::PathBuf::from).unwrap_or_else(|| std::path::PathBuf::from("/verif/target/tmp"));
+    let _ = std::fs::create_dir_all(&p);
+    p
+}
